@@ -104,5 +104,5 @@ package agessh
 //@   ensures#noprompt (old(i.decrypted) == nil && old(forall j in 0..len(stanzas) :: !(stanzas[j].Type == keytype(id(i.pubKey)) && len(stanzas[j].Args) >= 1 && stanzas[j].Args[0] == fpof(i.pubKey)))) ==> $ppcalls == old($ppcalls) && fileKey == nil && err != nil   [C19]
 //@   ensures#once $ppcalls <= old($ppcalls) + 1                                                                   [C19]
 //@   ensures#cached old(i.decrypted) != nil ==> $ppcalls == old($ppcalls) && i.decrypted == old(i.decrypted)       [C19]
-//@   ensures#errkeeps err != nil ==> i.decrypted == old(i.decrypted)                                               [C19]
+//@   ensures#validated i.decrypted != old(i.decrypted) ==> old(i.decrypted) == nil && $pkeqn == old($pkeqn) + 1 && $pkeqr && $ppcalls == old($ppcalls) + 1   [C19]
 //@   ensures#typednil i.decrypted != old(i.decrypted) ==> id(i.decrypted) != 0                                     [C19 C14]
